@@ -86,6 +86,13 @@ Definition sv_union_step (mk : mkind) (t : ty) (ml : svlay) (s : svstate) : svst
            (smems s ++ [mkmrec 0 (-1) (-1)])
   end.
 
+(* a struct or union, given the layouts of its members *)
+Definition sv_agg_layout (u : bool) (mls : list (mkind * ty * svlay)) : svlay :=
+  let s := fold_left (fun s '(mk, mt, ml) => (if u then sv_union_step else sv_struct_step) mk mt ml s)
+                     mls (mksv 0 1 [] []) in
+  (* "the size of any object is always a multiple of the object's alignment" (tail padding) *)
+  mksvl (align_up (bytes_of_bits (pos s)) (salign s)) (salign s) (sleaves s) (smems s).
+
 Fixpoint sysv_layout (t : ty) : svlay :=
   match t with
   | TBasic k => mksvl (sv_scalar_size k) (sv_scalar_size k) [] []
@@ -94,13 +101,9 @@ Fixpoint sysv_layout (t : ty) : svlay :=
   | TArr n el => let l := sysv_layout el in mksvl (sv_size l * n) (sv_align l) (sv_leaves l) []
   | TFlex el => let l := sysv_layout el in mksvl (sv_size l) (sv_align l) [] []
   | TAgg u ms =>
-      let fix go (ms : list (mkind * ty)) (s : svstate) : svstate :=
-        match ms with
-        | [] => s
-        | (mk, mt) :: r =>
-            go r ((if u then sv_union_step else sv_struct_step) mk mt (sysv_layout mt) s)
-        end in
-      let s := go ms (mksv 0 1 [] []) in
-      (* "the size of any object is always a multiple of the object's alignment" (tail padding) *)
-      mksvl (align_up (bytes_of_bits (pos s)) (salign s)) (salign s) (sleaves s) (smems s)
+      sv_agg_layout u ((fix members (ms : list (mkind * ty)) : list (mkind * ty * svlay) :=
+                          match ms with
+                          | [] => []
+                          | (mk, mt) :: r => (mk, mt, sysv_layout mt) :: members r
+                          end) ms)
   end.
